@@ -38,6 +38,7 @@ def run(F, rep, tier="quick", extra=None, only=None):
     check_from_str(F, rep)
     check_fmt(F, rep)
     check_pack(F, rep)
+    check_pack_forwarders(F, rep)
     check_named(F, rep)
     from . import aliasrule
     aliasrule.check(F, rep, "C12", 6)
@@ -291,6 +292,158 @@ def check_pack(F, rep):
                     if t.startswith("rgb::channels::"):
                         orders.add(t)
         rep.ob("PACK", "%s[%s]" % pair, orders == {want}, "channel order %s (expected %s)" % (sorted(orders), want), F.loc(b))
+
+
+# ------------------------------------------------------------------------------------ PACK-FWD
+# The public packing API around ComponentOrder: into_u32 / from_u32 (u16 for luma), From between colours and Packed, Packed::pack/unpack,
+# From between colours and bare integers.  Each is the order's pack / unpack applied to the colour itself (opaque colours get full alpha
+# going in and drop alpha coming out); the integer forms use the documented default order.  Evaluated symbolically with O::pack / O::unpack
+# left uninterpreted, the result is inspected as a term.
+def _tree(v):
+    if isinstance(v, RatFunc):
+        ats = list(v.atoms())
+        if len(ats) == 1 and repr(v) == repr(poly.atom_by_id(ats[0])):
+            a = poly.atom_by_id(ats[0])
+            if a.args:
+                return (a.name, [_tree(x) for x in a.args])
+            return a.name
+        return repr(v)
+    if isinstance(v, Struct):
+        return ("struct:" + v.path.split("::")[-1], {k: _tree(x) for k, x in v.fields.items()})
+    if isinstance(v, Array):
+        return ("array", [_tree(x) for x in v.items])
+    return repr(v)
+
+
+def _is_input_colour(t, root, alpha):
+    """t is the scalarised struct of the input colour: mk:Alpha{alpha,color}(alpha, mk:C{fields}(root.f..))"""
+    def colour(tc, base):
+        if isinstance(tc, str):
+            return tc == base   # the colour passed through whole
+        if not (isinstance(tc, tuple) and tc[0].startswith("mk:")):
+            return False
+        names = re.match(r"mk:\w+\{([^}]*)\}", tc[0]).group(1).split(",")
+        if len(names) != len(tc[1]):
+            return False
+        return all(a == "%s.%s" % (base, n) or (isinstance(a, str) and a.startswith("unit:")) for n, a in zip(names, tc[1]))
+    if alpha == "none":
+        return colour(t, root)
+    if isinstance(t, str):
+        return alpha == "own" and t == root
+    if not (isinstance(t, tuple) and t[0] == "mk:Alpha{alpha,color}" and len(t[1]) == 2):
+        return False
+    a, c = t[1]
+    if alpha == "own":
+        return a == root + ".alpha" and colour(c, root + ".color")
+    return isinstance(a, str) and a.startswith("stimulus::Stimulus::max_intensity") and colour(c, root)
+
+
+DEFAULT_ORDER = {"Rgb": "argb", "Rgba": "rgba", "Luma": "al", "Lumaa": "la"}   # documented defaults of the bare-integer forms
+LETTER = {"r": "red", "g": "green", "b": "blue", "l": "luma"}
+
+
+def check_pack_forwarders(F, rep):
+    S = Session(F)
+    n = 0
+    for b in F.bodies:
+        im = b["_impl"]
+        if b["dk"] not in ("Fn", "AssocFn") or "::test" in b["path"] or not b["file"].endswith(("rgb/rgb.rs", "luma/luma.rs", "cast/packed.rs")):
+            continue
+        nm = b["name"]
+        self_s = im["self_s"] if im else ""
+        arg_s = (im["trait_args_s"][0] if im and im.get("trait_args_s") else "")
+        tr = (im.get("trait") or "").split("::")[-1] if im else ""
+        kind = None
+        if nm in ("into_u32", "into_u16", "from_u32", "from_u16"):
+            kind = nm[:4]
+        elif nm in ("pack", "unpack") and b["path"].startswith("cast::packed::Packed"):
+            kind = "packed_" + nm
+        elif nm == "from" and tr == "From":
+            if self_s.startswith("cast::packed::Packed<"):
+                kind = "into_packed"
+            elif arg_s.startswith("cast::packed::Packed<"):
+                kind = "from_packed"
+            elif self_s in ("u32", "u16") and ("Rgb<" in arg_s or "Luma<" in arg_s) and arg_s.endswith("u8>"):
+                kind = "into_int"
+            elif arg_s in ("u32", "u16") and ("Rgb<" in self_s or "Luma<" in self_s) and self_s.endswith("u8>"):
+                kind = "from_int"
+        if kind is None:
+            continue
+        key = "%s[%s%s]" % (nm, self_s or b["path"], ("<-" + arg_s) if arg_s else "")
+        colour_ty = arg_s if kind in ("into_packed", "into_int") else self_s
+        has_alpha = colour_ty.startswith("alpha::alpha::Alpha<")
+        n += 1
+        try:
+            v, _fr = S.eval(b, names=["x"])
+        except (Opaque, poly.TooBig) as ex:
+            if kind == "from_int" and has_alpha and "Luma" in colour_ty:
+                # Lumaa <- u16 goes through the array cast of the La order; covered by the order rule above
+                calls = {F.S[n_["c"]["a"][0]] for n_, _p in facts.walk(b["body"]) if isinstance(n_.get("c"), dict) and n_["c"].get("a")}
+                rep.ob("PACK-FWD", key, "luma::channels::La" in calls, "default order of Lumaa <- u16: %s" % sorted(calls), F.loc(b), nontrivial=False)
+                continue
+            rep.fail("PACK-FWD", key, "uninterpretable: %s" % ex, F.loc(b))
+            continue
+        t = _tree(v)
+        if kind == "from_int" and not (isinstance(t, tuple) and t[0].startswith("struct:")):
+            # the order's unpack goes through the array cast (`packed.into()`), which stays opaque: decide by the order named in the call
+            calls = {F.S[a_] for n_, _p in facts.walk(b["body"]) if isinstance(n_.get("c"), dict) for a_ in n_["c"].get("a", [])}
+            cname = ("Luma" if "Luma<" in colour_ty else "Rgb") + ("a" if has_alpha else "")
+            want = {"argb": "rgb::channels::Argb", "rgba": "rgb::channels::Rgba", "al": "luma::channels::Al", "la": "luma::channels::La"}[DEFAULT_ORDER[cname]]
+            orders = {c_ for c_ in calls if "::channels::" in c_}
+            rep.ob("PACK-FWD", key, orders == {want}, "default order %s (documented: %s)" % (sorted(orders), want), F.loc(b), nontrivial=False)
+            continue
+        ok, why = False, "term " + repr(v)[:200]
+        alpha_mode = "own" if has_alpha else "max"
+        if kind in ("into", "into_packed"):
+            inner = t
+            if kind == "into_packed":
+                inner = t[1].get("color") if isinstance(t, tuple) and t[0] == "struct:Packed" else None
+            if isinstance(inner, tuple) and inner[0].startswith("cast::packed::ComponentOrder::pack<O,") and len(inner[1]) == 1:
+                a = inner[1][0]
+                if isinstance(a, tuple) and a[0].startswith("std::convert::From::from<alpha::alpha::Alpha<") and len(a[1]) == 1:
+                    ok = _is_input_colour(a[1][0], "x", "none")   # Rgba::from(rgb): the generic opaque -> alpha conversion
+                else:
+                    ok = _is_input_colour(a, "x", alpha_mode)
+                why = "O::pack of %s" % (a,)
+        elif kind in ("from", "from_packed"):
+            src = "x" if kind == "from" else "x.color"
+            inner = t
+            if not has_alpha:
+                inner = t[1][0] if isinstance(t, tuple) and t[0] == "proj.color" and len(t[1]) == 1 else None
+            ok = isinstance(inner, tuple) and inner[0].startswith("cast::packed::ComponentOrder::unpack<O,") and inner[1] == [src]
+            why = "O::unpack(%s)%s" % (src, "" if has_alpha else ".color")
+        elif kind == "packed_pack":
+            inner = t[1].get("color") if isinstance(t, tuple) and t[0] == "struct:Packed" else None
+            ok = isinstance(inner, tuple) and inner[0].startswith("cast::packed::ComponentOrder::pack<O,") and inner[1] == ["x"]
+        elif kind == "packed_unpack":
+            ok = isinstance(t, tuple) and t[0].startswith("cast::packed::ComponentOrder::unpack<O,") and t[1] == ["x.color"]
+        elif kind in ("into_int", "from_int"):
+            cname = ("Luma" if "Luma<" in colour_ty else "Rgb") + ("a" if has_alpha else "")
+            order = DEFAULT_ORDER[cname]
+            base = "x.color" if has_alpha else "x"
+            if kind == "into_int":
+                want = []
+                for ch in order:
+                    want.append(("x.alpha" if has_alpha else None) if ch == "a" else "%s.%s" % (base, LETTER[ch]))
+                items = t[1] if isinstance(t, tuple) and t[0] == "array" else None
+                ok = items is not None and len(items) == len(want) and all(
+                    (w is None and isinstance(i, str) and i.startswith("stimulus::Stimulus::max_intensity")) or i == w for i, w in zip(items, want))
+                why = "big-endian bytes %s, documented order %s" % (items, order.upper())
+            else:
+                col = t
+                if has_alpha and isinstance(t, tuple) and t[0] == "struct:Alpha":
+                    col = t[1].get("color")
+                flds = dict(col[1]) if isinstance(col, tuple) and isinstance(col[1], dict) else {}
+                ok = bool(flds)
+                for i, ch in enumerate(order):
+                    if ch == "a":
+                        if has_alpha:
+                            ok = ok and t[1].get("alpha") == "x[%d]" % i
+                    else:
+                        ok = ok and flds.get(LETTER[ch]) == "x[%d]" % i
+                why = "%s from bytes in the documented order %s" % (flds, order.upper())
+        rep.ob("PACK-FWD", key, ok, why if ok else "not the forwarder expected here: " + why + " — got " + repr(v)[:200], F.loc(b), nontrivial=False)
+    rep.floor("packing forwarders", n, 26)
 
 
 # ------------------------------------------------------------------------------------ NAMED
